@@ -282,6 +282,16 @@ def rt_gen(rng, tier):
             tops.append(['w', v] if rng.random() < 0.25 else ['t', rng.choice('po'), v])
         cases.append(dict(tops=tops, backend='fork' if i % 5 == 4 else 'serial', mode='uncache' if i % 3 == 2 else 'run',
                           fresh_lab=bool(i % 2)))
+    # the same round trip on a Lab whose storage directory is given as a RELATIVE path ('str' / 'path': pathlib.Path), with an
+    # os.chdir() between the first run and everything after it; under the new working directory a decoy directory of the
+    # same relative name holds one foreign entry.  The storage directory is fixed when the Lab is made: nothing may change.
+    for i in range(10 if tier == 'quick' else 100):
+        tops = []
+        for _ in range(rng.choice([1, 2, 2, 3])):
+            v = rt_value(rng, 0, force_unsorted=True)
+            tops.append(['w', v] if rng.random() < 0.25 else ['t', rng.choice('po'), v])
+        cases.append(dict(tops=tops, backend='fork' if i % 5 == 4 else 'serial', mode='uncache' if i % 3 == 2 else 'run',
+                          fresh_lab=False, rel='path' if i % 2 else 'str'))
     return cases
 
 
@@ -366,7 +376,16 @@ def rt_meta(m):
 
 
 def rt_run(case, root):
-    """the history on the real code; returns a JSON-able record"""
+    """the history on the real code; returns a JSON-able record (a case with `rel` changes the working directory: only
+    ever called in worker processes, and the directory is restored)"""
+    cwd0 = os.getcwd()
+    try:
+        return _rt_run(case, root)
+    finally:
+        os.chdir(cwd0)
+
+
+def _rt_run(case, root):
     import logging
     import labtech
     import conftasks as C
@@ -404,7 +423,14 @@ def rt_run(case, root):
     rec = dict(case=case, n=n, ty=[rt_type_index(t) for t in everything], deps=deps, tops=[t.k for t in tops],
                want={t.k: rt_want(t) for t in everything}, distinct_keys=len(key_of),
                unsorted_dicts=sum(rt_unsorted(s) for s in case['tops']))
-    lab = labtech.Lab(storage=sd, runner_backend=case['backend'], max_workers=2)
+    rel = case.get('rel')
+    if rel:
+        from pathlib import Path
+        os.makedirs(os.path.join(d, 'elsewhere', 'store'))
+        os.chdir(d)
+        lab = labtech.Lab(storage=Path('store') if rel == 'path' else 'store', runner_backend=case['backend'], max_workers=2)
+    else:
+        lab = labtech.Lab(storage=sd, runner_backend=case['backend'], max_workers=2)
     res1 = guarded(lambda: lab.run_tasks(tops, **kw))
     lines = log_lines()
     rec['ret1'] = res1 if isinstance(res1, str) else {t.k: res1.get(t, 'MISSING') for t in tops}
@@ -412,7 +438,13 @@ def rt_run(case, root):
     rec['val1'] = {int(l[1]): l[2] for l in lines if l[0] == 'X'}
     rec['keys1'] = keys_now(lab)
     rec['meta1'] = {t.k: rt_meta(t.result_meta) for t in everything}
-    if case['fresh_lab']:
+    if rel:
+        # the program moves on to another working directory, where a directory of the same relative name holds a foreign entry
+        stored = sorted(k for k in os.listdir(sd) if os.path.isdir(os.path.join(sd, k)))
+        if stored:
+            shutil.copytree(os.path.join(sd, stored[0]), os.path.join(d, 'elsewhere', 'store', stored[0][:-8] + 'decoy000'))
+        os.chdir(os.path.join(d, 'elsewhere'))
+    if case['fresh_lab'] and not rel:
         lab2 = labtech.Lab(storage=sd, runner_backend='serial')
     else:
         from labtech.runners import SerialRunnerBackend
@@ -494,7 +526,9 @@ def rt_monitor(rec):
     n = rec['n']
     alln = list(range(n))
     tag = (f"round trip through cached_tasks ({len(case['tops'])} requested / {n} tasks, dict parameters with unsorted keys, "
-           f"first run '{case['backend']}', {'fresh Lab' if case['fresh_lab'] else 'same Lab'})")
+           f"first run '{case['backend']}', {'fresh Lab' if case['fresh_lab'] else 'same Lab'}"
+           + (f", Lab(storage={'Path(' if case['rel'] == 'path' else ''}'store'{')' if case['rel'] == 'path' else ''}) - a relative path - and os.chdir() "
+              "after the first run to a directory that holds another 'store' with a foreign entry" if case.get('rel') else '') + ')')
     want = {int(k): v for k, v in rec['want'].items()}
     if isinstance(rec['ret1'], str) or any(rec['ret1'].get(str(k)) != want[k] for k in rec['tops']):
         out.append((f"{tag}: the first run_tasks did not return the tasks' own values: {rec['ret1']}", ['C01']))
